@@ -1767,6 +1767,7 @@ func RunLocks(conf core.Config, scope core.Scope) *core.Result {
 	res := core.NewResult("GOPROTO.locks")
 	res.Rules = append(res.Rules,
 		"GOPROTO.lockpair: every Lock()/RLock() statement is paired with its Unlock() in the same statement list (or a deferred Unlock)",
+		"GOPROTO.lockexit: between a Lock() and an explicit (not deferred) Unlock() of the same statement list no statement can leave the function by return or panic",
 		"GOPROTO.once: a field initialised inside sync.Once.Do is read only after the Do call: never around it, and in other methods only after the initialising method was called")
 	res.Configs = append(res.Configs, conf.String())
 	pkgs, err := core.Load(conf, scope.Patterns...)
@@ -1842,6 +1843,33 @@ func RunLocks(conf core.Config, scope core.Scope) *core.Result {
 						switch s := list[i].(type) {
 						case *ast.ExprStmt:
 							if y, _, ok := methodCallOn(s.X, pair[1]); ok && y == x {
+								if !paired {
+									// an explicit unlock: nothing between the two may
+									// leave the function, or the lock stays held
+									res.Obligations++
+									res.Count("explicit_unlock_regions", 1)
+									for j := idx + 1; j < i; j++ {
+										var exit ast.Node
+										ast.Inspect(list[j], func(y ast.Node) bool {
+											switch z := y.(type) {
+											case *ast.FuncLit:
+												return false
+											case *ast.ReturnStmt:
+												exit = z
+											case *ast.CallExpr:
+												if cfgx.IsPanic(info, z) {
+													exit = z
+												}
+											}
+											return exit == nil
+										})
+										if exit != nil {
+											res.Add(core.Finding{Rule: "GOPROTO.lockexit", Key: fmt.Sprintf("GOPROTO.lockexit|%s|%s", name, x), Pos: core.Pos(exit.Pos()), Func: name,
+												Msg: fmt.Sprintf("the function can be left here (return or panic) between %s.%s() and the explicit %s.%s(): the lock stays held and every later user of %s blocks for ever; unlock with defer, or before leaving", x, pair[0], x, pair[1], x)})
+											break
+										}
+									}
+								}
 								paired = true
 							}
 						case *ast.DeferStmt:
